@@ -2584,7 +2584,8 @@ BD_Shape<T>::simplify_using_context_assign(const BD_Shape& y) {
   if (x.contains(y)) {
     BD_Shape<T> res(dim, UNIVERSE);
     x.m_swap(res);
-    return false;
+    // The intersection is `y' itself.
+    return !y.marked_empty();
   }
 
   // Filter away the case where `x' is empty.
